@@ -22,7 +22,16 @@ static std::map<std::string, cmd_fn>& registry()
     static std::map<std::string, cmd_fn> r;
     return r;
 }
-void register_cmd(const std::string& name, cmd_fn fn) { registry()[name] = fn; }
+void register_cmd(const std::string& name, cmd_fn fn)
+{
+    // two groups registering the same command name would silently shadow one another
+    if (registry().count(name))
+    {
+        std::fprintf(stderr, "djv: duplicate command name %s\n", name.c_str());
+        std::abort();
+    }
+    registry()[name] = fn;
+}
 
 std::string hex64(uint64_t u)
 {
